@@ -45,7 +45,7 @@ def gen_case(rng, quick):
         za = DOC[tgt]
     else:
         a = rng.choice([1.0, 2.0, 4.0, 49.618, 208.0]); z = rng.choice([0.0, a, common.dyadic(rng, 0.0, 1.0, 6) * a])
-        tgt = dict(Z=z, A=a); za = (z, a)
+        tgt = dict(Z=z, A=a) if rng.random() < 0.5 else dict(A=a, Z=z); za = (z, a)
     hv = rng.choice(["total", "light", "light", "charm"])
     Q2 = rng.choice([common.dyadic(rng, 4.0, 64.0, 6), common.dyadic(rng, 30.0, 2000.0, 8)])
     x = rng.choice([0.125, 0.25, 0.5, common.dyadic(rng, 0.02, 0.8, 10)])
